@@ -14,13 +14,13 @@ R(o) == o @@ [pos |-> 0, len |-> 0, p |-> "P0", q |-> "P0", c |-> "c0", k |-> "d
 OpsK(t) == [
   append    |-> {R([op |-> "append", p |-> p]) : p \in Adds},
   prepend   |-> {R([op |-> "prepend", p |-> p]) : p \in Adds},
-  append_c  |-> {R([op |-> "append_c", c |-> c]) : c \in {"c97", "c37", "c0"}},
+  append_c  |-> {R([op |-> "append_c", c |-> c]) : c \in {"c97", "c37", "c0", "c233"}},
   append_ca |-> {R([op |-> "append_ca", p |-> p, len |-> b]) : p \in {"Pab", "PX1024"}, b \in {0, 1, 2, MAX}}
                 \cup {R([op |-> "append_ca", p |-> "PX1025", len |-> b]) : b \in {1023, 1024, 1025}},
   append_pf |-> {R([op |-> "append_pf", k |-> "d", a |-> a]) : a \in {7, -12345}}
                 \cup {R([op |-> "append_pf", k |-> "s", a |-> p]) : p \in {"Ppct", "PX253", "PX254", "PX255", "PX509", "PX510", "PX511", "PX1021", "PX1022", "PX1023", "PX2046"}},     \* formatted "<...>": 255-257, 511-513, 1023-1025, 2048 bytes (sizes at which an implementation might switch buffers)
   insert    |-> {R([op |-> "insert", pos |-> q, p |-> p]) : q \in Positions(t), p \in Adds},
-  insert_c  |-> {R([op |-> "insert_c", pos |-> q, c |-> c]) : q \in Positions(t), c \in {"c97", "c0"}},
+  insert_c  |-> {R([op |-> "insert_c", pos |-> q, c |-> c]) : q \in Positions(t), c \in {"c97", "c0", "c233", "c255"}},
   insert_ca |-> {R([op |-> "insert_ca", pos |-> q, p |-> "Pabc", len |-> b]) : q \in Positions(t), b \in {0, 1, 3, MAX}}
                 \cup {R([op |-> "insert_ca", pos |-> q, p |-> "PX1025", len |-> b]) : q \in Positions(t), b \in {1022, 1024, MAX}},
   insert_pf |-> {R([op |-> "insert_pf", pos |-> q, k |-> "d", a |-> 42]) : q \in Positions(t)}
